@@ -108,6 +108,9 @@ func main() {
 		fmt.Fprintln(os.Stderr, "usage: owvc check <id> [--tier quick|thorough] | vc [-f regexp] <patterns> | replay <file>")
 		os.Exit(2)
 	}
+	if r := os.Getenv("OWVC_REPO"); r != "" {
+		repoRoot = r // developer override (scratch copies); the registered checks never set it
+	}
 	switch os.Args[1] {
 	case "vc":
 		cmdVC(os.Args[2:])
@@ -115,6 +118,8 @@ func main() {
 		cmdCheck(os.Args[2:])
 	case "replay":
 		cmdReplay(os.Args[2:])
+	case "locals":
+		cmdLocals(os.Args[2:])
 	default:
 		fmt.Fprintln(os.Stderr, "unknown command", os.Args[1])
 		os.Exit(2)
@@ -216,3 +221,64 @@ func firstLines(s string, n int) string {
 	return strings.Join(ls, " | ")
 }
 
+
+// cmdLocals: maintenance command - writes/updates the "locals" line of every
+// function contract in the contract files of the given packages (the locals the
+// function declares, in source order; see collectNames).
+func cmdLocals(args []string) {
+	l := loadRepo(args)
+	type site struct {
+		file string
+		line int
+	}
+	want := map[site]string{}
+	for _, k := range sortedKeys(l.cs.Funcs) {
+		fc := l.cs.Funcs[k]
+		fn := l.funcs[contractFuncKey(fc)]
+		if fn == nil || fc.Trusted != "" {
+			continue
+		}
+		loc := declaredLocals(fn)
+		if len(loc) == 0 {
+			continue
+		}
+		st := site{fc.File, fc.Line}
+		if _, ok := want[st]; !ok {
+			want[st] = strings.Join(loc, ", ")
+		}
+	}
+	byFile := map[string][]site{}
+	for st := range want {
+		byFile[st.file] = append(byFile[st.file], st)
+	}
+	for file, sites := range byFile {
+		b, err := os.ReadFile(file)
+		if err != nil {
+			fatalf("%v", err)
+		}
+		lines := strings.Split(string(b), "\n")
+		sort.Slice(sites, func(i, j int) bool { return sites[i].line > sites[j].line })
+		n := 0
+		for _, st := range sites {
+			idx := st.line - 1 // the "//@ func" line (1-based -> 0-based)
+			if idx < 0 || idx >= len(lines) || !strings.Contains(lines[idx], "func ") {
+				fmt.Printf("%s:%d: not a func line, skipped\n", file, st.line)
+				continue
+			}
+			newLine := "//@   locals " + want[st]
+			if idx+1 < len(lines) && strings.HasPrefix(strings.TrimSpace(lines[idx+1]), "//@   locals ") {
+				if lines[idx+1] != newLine {
+					lines[idx+1] = newLine
+					n++
+				}
+				continue
+			}
+			lines = append(lines[:idx+1], append([]string{newLine}, lines[idx+1:]...)...)
+			n++
+		}
+		if n > 0 {
+			os.WriteFile(file, []byte(strings.Join(lines, "\n")), 0o644)
+		}
+		fmt.Printf("%s: %d locals lines written\n", file, n)
+	}
+}
